@@ -78,7 +78,7 @@ MANIFEST = {
             "degenerate instance families, 7 hostile choosers mixed per batch) was decoded and checked constraint by "
             "constraint by an oracle written from the problem definitions. Exploration: instances and action histories "
             "are sampled, with choosers that steer into corners random policies never reach; C05's exhaustive explorer "
-            "adds all histories of small instances.",
+            "adds all histories of small instances. Sessions 3+: DenseRewardTSPEnv, instances of another size than the env generator's (size-agnostic envs), OP rows with no reachable customer.",
     "note": "Trusted base: vlib/oracles/routing.py (self-tested on hand-computed miniatures at import). Tolerance band "
             "cases are reported as ambiguous, never as held or violated.",
     "technique": "runtime monitoring: recorded (instance, mask, action) histories checked offline by an independent feasibility oracle",
